@@ -4,10 +4,10 @@ EXTENDS Reward
 CONSTANTS AllocGrid,   \* allocation values used for <<dao, proposer>> pairs
           ShareGrid,   \* share values used in delegator maps
           MaxDelegators, SimDepth,
-          MaxReward,   \* relay rewards 0..MaxReward plus ExtraRewards
+          MaxReward,   \* relay rewards 1..MaxReward plus ExtraRewards
           ExtraRewards, FeeSet, AllocFixed, MapFixed
 
-MCRewards == (0..MaxReward) \cup ExtraRewards
+MCRewards == (1..MaxReward) \cup ExtraRewards
 MCTxFees  == FeeSet
 
 \* AllocFixed / MapFixed, when non-empty, replace the grids (used to vary one dimension at a time)
@@ -26,6 +26,9 @@ MCShareMaps ==
 Maps_NoneAndThirds == {<<>>, <<33, 33, 34>>}
 Maps_Thirds        == {<<33, 33, 34>>}
 Allocs_MainAndThird == {<<10, 1>>, <<1, 2>>}
+Allocs_OneSided     == {<<a, 0>> : a \in 0..100} \cup {<<0, a>> : a \in 0..100}
+Allocs_All          == {a \in (0..100) \X (0..100) : a[1] + a[2] <= 100}
+Fees_0_120          == 0..120
 
 NextCover == Next /\ PrintT(ToJson(hist'))
 EmitSim   == Len(hist) = SimDepth => PrintT(ToJson(hist))
